@@ -97,7 +97,7 @@ fn main() {
             for _ in 0..n {
                 let p = match rng.below(6) {
                     0 | 1 => rc::gen_chain_program(&mut rng, thorough),
-                    2 => if rng.chance(1, 2) { rc::gen_weak_program(&mut rng, thorough) } else { rc::gen_bulk_program(&mut rng, thorough) },
+                    2 => match rng.below(3) { 0 => rc::gen_weak_program(&mut rng, thorough), 1 => rc::gen_bulk_program(&mut rng, thorough), _ => rc::gen_cas_program(&mut rng, thorough) },
                     _ => rc::gen_program(&mut rng, thorough),
                 };
                 let (line, mon) = rc::run_case(&p, &mut rng, None);
